@@ -30,7 +30,7 @@ def decorate(R, lines):
             sec = l.strip()
         # non-ASCII text where the grammar lets any character through: label names / flavours, sys entries, HTTP software
         if k == "label" and R.random() < 0.3:
-            l = l.rstrip() + R.choice(["\u00e9", "\u00df\u65e5\u672c", "\u00fc-\u0416"])
+            l = l.rstrip() + R.choice(["\u00e9", "\u00df\u65e5\u672c", "\u00fc-\u0416", " ;old", " ;-) x", "\t; y", " #1"])
         elif k == "sys" and R.random() < 0.3:
             l = l.rstrip() + R.choice([",B\u00fcro", ",\u65e5\u672c", "\u00e9"])
         elif k == "sig" and sec.startswith("[http") and R.random() < 0.2 and l.count(":") == 3:
